@@ -211,6 +211,69 @@ func (c01) Run(c *core.Ctx) {
 			}
 		}
 	}
+	{
+		// every pair of node kinds as (base, override) at the same path (quick: 6 representative kinds; thorough: all 15)
+		reprPair := map[string]bool{"null": true, "string": true, "list-str": true, "list-emptymap": true, "empty-map": true, "map-str": true}
+		for _, p := range paths {
+			ps := strings.Join(p, ".")
+			for _, k1 := range c01kinds {
+				if c.Quick() && !reprPair[k1.name] {
+					continue
+				}
+				d1 := mapToYAML(c01docAt(p, k1.val))
+				for _, k2 := range c01kinds {
+					if c.Quick() && !reprPair[k2.name] {
+						continue
+					}
+					if c.Expired() {
+						return
+					}
+					d2 := mapToYAML(c01docAt(p, k2.val))
+					id := fmt.Sprintf("pair/%s/%s/%s", ps, k1.name, k2.name)
+					c.Do(id, func() core.Outcome {
+						return c01total(id, &Scn{Files: map[string]string{"compose.yaml": d1, "over.yaml": d2}, Main: []string{"compose.yaml", "over.yaml"}, Env: map[string]string{"U": "u"}, InMem: true}, "default")
+					})
+				}
+			}
+		}
+	}
+	if !c.Quick() {
+		// thorough: the full lattice of the 10 boolean load options on 5 representative node kinds
+		flags := []func(*loader.Options, bool){
+			func(o *loader.Options, v bool) { o.SkipValidation = v }, func(o *loader.Options, v bool) { o.SkipInterpolation = v },
+			func(o *loader.Options, v bool) { o.SkipNormalization = v }, func(o *loader.Options, v bool) { o.ResolvePaths = !v },
+			func(o *loader.Options, v bool) { o.SkipConsistencyCheck = v }, func(o *loader.Options, v bool) { o.SkipExtends = v },
+			func(o *loader.Options, v bool) { o.SkipInclude = v }, func(o *loader.Options, v bool) { o.SkipResolveEnvironment = v },
+			func(o *loader.Options, v bool) { o.SkipDefaultValues = v }, func(o *loader.Options, v bool) { o.ConvertWindowsPaths = v },
+		}
+		repr := map[string]bool{"null": true, "string": true, "list-map": true, "map-str": true, "zero": true}
+		for _, p := range paths {
+			ps := strings.Join(p, ".")
+			for _, k := range c01kinds {
+				if !repr[k.name] {
+					continue
+				}
+				doc := mapToYAML(c01docAt(p, k.val))
+				for mask := 1; mask < 1<<len(flags); mask++ {
+					if mask&255 == 0 && c.Expired() {
+						return
+					}
+					mask := mask
+					id := fmt.Sprintf("lattice/%s/%s/%03x", ps, k.name, mask)
+					c.Do(id, func() core.Outcome {
+						fn := func(o *loader.Options) {
+							for i, f := range flags {
+								f(o, mask&(1<<i) != 0)
+							}
+						}
+						out := c01total(id, &Scn{Files: map[string]string{"compose.yaml": doc}, Main: []string{"compose.yaml"}, Env: map[string]string{"U": "u"}, Opts: []func(*loader.Options){fn}, InMem: true}, "lattice")
+						out.Class = fmt.Sprintf("%s/%s/%s", ps, k.name, out.Class[strings.LastIndex(out.Class, "/")+1:])
+						return out
+					})
+				}
+			}
+		}
+	}
 	c01cycles(c)
 	dependsOnDigraphs(c, "depends_on/")
 	c01refcycles(c)
